@@ -139,7 +139,7 @@ pub fn build(e: &mut Ent, kind: Option<u32>, upper: Option<u32>) -> (StepCase, T
             let insn = Insn::StcW { ea };
             let code = encode(&insn);
             let pc = e.code_addr(code.len() as u32, &[t]);
-            (StepCase { code, pc, er, ccr: e.u8(), patches: vec![], bus: e.bus_cfg(), irq: None }, Tag { insn, areg: ea.reg(), target: Some(t), wraps })
+            (StepCase { code, pc, er, ccr: e.u8(), patches: vec![], bus: e.bus_cfg(), irq: None, primer: None }, Tag { insn, areg: ea.reg(), target: Some(t), wraps })
         }
         // --- JMP/JSR @ERn, @@aa:8 and the stack accesses of BSR/JSR/RTS
         7 | 8 => {
@@ -239,6 +239,9 @@ use crate::engine::emu::EmuResult;
 
 pub fn run(ctx: &Ctx) -> i32 {
     if let Some(v) = &ctx.replay {
+        if crate::checks::soup::is_soup_replay(v) {
+            return crate::checks::soup::replay(ctx, P, v);
+        }
         return replay_step(ctx, P, v);
     }
     let tier = ctx.tier;
@@ -364,5 +367,8 @@ pub fn run(ctx: &Ctx) -> i32 {
     let rule = "cases = every instruction form with a memory operand (MOV B/W/L all modes, bit instructions on @ERd/@aa:8, STC.W all modes, JMP/JSR @ERn/@@aa:8, the stack accesses of PUSH/POP/BSR/JSR/RTS/RTE/TRAPA) with effective addresses across RAM/DRAM/vector area incl. region edges and inaccessible holes, displacements chosen so that base+disp crosses 0 / 2^24 / 2^32, all 256 upper bytes per kind, all @aa:8 and @aa:16 values, every @@aa:8 vector; memory is address-tagged so the accessed location is observable. Oracle = reference model (EA modulo 2^24; accessible -> access performed at exactly that location, inaccessible -> error) plus the metamorphic relation 'another upper byte in the address register changes nothing'. Non-trivial = upper byte != 0, or base+disp wraps, or EA within 4 bytes of a region edge; distinct by (form, register, upper byte, EA, wrap).";
     let mut extra = Map::new();
     extra.insert("masked_details".into(), json!(["byte layout of the word stored by STC.W (only which addresses are written is compared)", "top byte of call frames"]));
+    stats.merge(crate::checks::soup::phase(ctx, P, crate::checks::soup::Flavor::Ea, ctx.tier.pick(300000, 6000000), 0x8510000, false));
+    let rule_soup = format!("{}{}", rule, crate::checks::soup::RULE);
+    let rule: &str = &rule_soup;
     finish(ctx, P, stats, rule, vec!["reference model transcribed from the H8/300H programming manual (DESIGN Appendix A.1 EA rules)".into()], extra)
 }
